@@ -91,11 +91,64 @@ func c05JudgeCLI(rec *sb.Rec, dir string, c cliCase) *failure {
 	return nil
 }
 
+// ---- the catch variable is the thrown object ----
+
+type c05ObjCase struct {
+	Form string `json:"form"`
+	Src  string `json:"src"`
+}
+
+// c05ObjectCases: one script per way of raising an object that exists before the throw; the catch
+// clause reports identity, class, state and behaviour of what it received.
+func c05ObjectCases() []c05ObjCase {
+	const prelude = "<?php\nclass Ez extends Exception { public $tag = 0; function who() { return 'Ez#' . $this->tag; } }\nclass Ey extends Ez {}\n"
+	const report = "__obs(\"same\", $e === $o); __obs(\"class\", get_class($e)); __obs(\"io\", $e instanceof Ez); __obs(\"msg\", $e->getMessage()); try { __obs(\"tag\", $e->tag); } catch (Throwable $x) { __obs(\"!tag\", 1); } try { __obs(\"who\", $e->who()); } catch (Throwable $x) { __obs(\"!who\", 1); } try { $e->tag = 9; __obs(\"seen\", $o->tag); } catch (Throwable $x) { __obs(\"!seen\", 1); }"
+	mk := func(form, body string) c05ObjCase {
+		return c05ObjCase{Form: form, Src: prelude + "$o = new Ey('m');\n$o->tag = 5;\n" + body + "\n"}
+	}
+	return []c05ObjCase{
+		mk("throw-variable", "try { throw $o; } catch (Ez $e) { "+report+" }"),
+		mk("throw-from-function", "function th($x) { throw $x; }\ntry { th($o); } catch (Ez $e) { "+report+" }"),
+		mk("rethrow-from-catch", "try { try { throw $o; } catch (Ey $inner) { throw $inner; } } catch (Ez $e) { "+report+" }"),
+		mk("through-finally", "try { try { throw $o; } finally { $z = 1; } } catch (Throwable $e) { "+report+" }"),
+		mk("from-method", "class Th { function go($x) { throw $x; } }\ntry { (new Th())->go($o); } catch (Exception $e) { "+report+" }"),
+		mk("from-loop", "try { foreach ([1, 2] as $i) { if ($i == 2) { throw $o; } } } catch (Ez $e) { "+report+" }"),
+	}
+}
+
+func c05JudgeObject(pool *sb.Pool, rec *sb.Rec, c c05ObjCase) []*failure {
+	rep := pool.Exec(&sb.Req{Kind: "script", Src: c.Src, Tmpl: true, Run: true})
+	rec.Eval()
+	if rep.Outcome == sb.Infra {
+		rec.InfraProblem("%s", rep.Msg)
+		return nil
+	}
+	if rep.Outcome != sb.OK {
+		return []*failure{{Key: "cell:catch-object:" + c.Form + ":" + rep.Outcome, Detail: fmt.Sprintf("%s: %s\n%s", rep.Outcome, clip(rep.Msg, 200), c.Src), Case: c}}
+	}
+	o := parseObs(rep.Obs)
+	want := map[string]string{"same": "b:1", "class": `s:"Ey"`, "io": "b:1", "msg": `s:"m"`, "tag": "i:5", "who": `s:"Ez#5"`, "seen": "i:9"}
+	var out []*failure
+	for _, k := range []string{"same", "class", "io", "msg", "tag", "who", "seen"} {
+		got, ok := o[k]
+		if !ok {
+			got = "error"
+			if _, raised := o["!"+k]; !raised {
+				got = "missing"
+			}
+		}
+		if got != want[k] {
+			out = append(out, &failure{Key: "cell:catch-object:" + k, Detail: fmt.Sprintf("thrown %s: the catch variable's %q is %s, the thrown object's is %s\n%s", c.Form, k, got, want[k], c.Src), Case: c})
+		}
+	}
+	return out
+}
+
 func TestC05(t *testing.T) {
 	cfg := sb.LoadConfig("C05")
 	rec := sb.NewRec(cfg)
 	defer rec.Flush()
-	rec.R.Rule = "programs from pgen's exception fragment (user hierarchies <= 5 classes + <= 2 marker interfaces below Exception, try/catch/finally nested inside loops, switches and functions, exits by fall-through / return / break / continue / throw / throw from catch / throw or return from finally), each block printing an entry/exit marker and each catch printing get_class($e) and the per-throw-site message; differential against the reference interpreter in a sandbox worker. A seeded subset (clean, uncaught, and syntactically broken variants) is run through the real CLI in a subprocess for exit status and flush. Non-trivial = the reference run catches a throwable or leaves a finally by a non-fall-through exit; distinct by program text."
+	rec.R.Rule = "programs from pgen's exception fragment (user hierarchies <= 5 classes + <= 2 marker interfaces below Exception, try/catch/finally nested inside loops, switches and functions, exits by fall-through / return / break / continue / throw / throw from catch / throw or return from finally), each block printing an entry/exit marker and each catch printing get_class($e) and the per-throw-site message; differential against the reference interpreter in a sandbox worker. Six ways of throwing an object that exists before the throw (variable, from a function, rethrow, through finally, from a method, from a loop), the catch clause reporting identity (===), class, instanceof, message, a property, a user method and a write seen through the original name. A seeded subset (clean, uncaught, and syntactically broken variants) is run through the real CLI in a subprocess for exit status and flush. Non-trivial = the reference run catches a throwable or leaves a finally by a non-fall-through exit; distinct by program text."
 	pool := &sb.Pool{}
 	defer pool.Close()
 	dl := time.Now().Add(budget(cfg, 60, 700))
@@ -105,6 +158,18 @@ func TestC05(t *testing.T) {
 		rf, err := sb.LoadReplay(cfg.Replay)
 		if err != nil {
 			rec.InfraProblem("replay: %v", err)
+			return
+		}
+		if strings.HasPrefix(rf.Key, "cell:catch-object:") {
+			var c c05ObjCase
+			json.Unmarshal(rf.Case, &c)
+			rec.NonTrivial(c.Src)
+			rec.NonTrivial(c.Src, "replay")
+			for _, f := range c05JudgeObject(pool, rec, c) {
+				if f.Key == rf.Key {
+					rec.Fail(f.Key, f.Detail, f.Case)
+				}
+			}
 			return
 		}
 		if strings.HasPrefix(rf.Key, "cell:exit:") {
@@ -124,6 +189,17 @@ func TestC05(t *testing.T) {
 	base.Exceptions = true
 	base.MaxStmts = 10
 	base.Exclude = c02Exclusions(cfg.Root)
+	// the catch variable is the thrown object: identity, class, state, behaviour, per way of throwing
+	for i, c := range c05ObjectCases() {
+		if !cfg.Mine(i) {
+			continue
+		}
+		rec.NonTrivial(c.Src)
+		rec.Label("catch-object:"+c.Form, c.Src)
+		for _, f := range c05JudgeObject(pool, rec, c) {
+			rec.Fail(f.Key, f.Detail, f.Case)
+		}
+	}
 	// fixed CLI cases first: the three outcome kinds on hand-written programs
 	if cfg.Shard == 0 {
 		for _, c := range []cliCase{
